@@ -118,24 +118,25 @@ theorem wholec_step_sim (env : Env) (haddr : Nat → Option Nat) (um ud : Bool) 
     (hrel : wholec_Rel c env.prog L retAddr top σ s) (hstep : jitStepC c.clobber env s = .next s') :
     ∃ k σ', stepsN c k σ = some σ' ∧ σ'.misaligned = σ.misaligned ∧
       ((getInsn? env.prog s'.pc).isSome → wholec_Rel c env.prog L retAddr top σ' s') := by
-  obtain ⟨⟨hrel0, htop, ⟨i, hstart⟩, ⟨a, hloc, hrip⟩⟩, hlog, halign⟩ := hrel
+  obtain ⟨⟨hrel0, htop, ⟨i, hstart⟩, ⟨a, hloc, hrip⟩, hd0⟩, hlog, halign⟩ := hrel
   rw [wholec_jitStepC_at c.clobber env s i hstart] at hstep
   have hopc : i.opc.toNat ∈ whole_coveredOpcodes ∨ (i.opc = 0x85 ∧ i.src = 0) := by
     rcases hcov _ hstart with h | h | h
     · exact Or.inl h
     · rw [wholec_jitExecC_exit c.clobber env _ i h,
-        whole_jitExec_exit env { s with pc := s.pc + 1 } i h hrel0.frames] at hstep
+        whole_jitExec_exit env { s with pc := s.pc + 1 } i h hd0] at hstep
       cases hstep
     · exact Or.inr h
   obtain ⟨ais, n, a', b, harm, hloc', hchk, hlocb⟩ := whole_validate_arm env.prog haddr um ud c.code L hv s.pc i hstart
   rw [hloc] at hloc'
   cases hloc'
   have hb : b ≤ c.code.size := whole_locOf_le env.prog haddr um ud c.code L hv _ b hlocb
-  obtain ⟨k, σ', hk, hrel0', hlog', htop', hmis, hbase, hdisj⟩ :=
+  obtain ⟨k, σ', hk, hrel0', hlog', htop', hmis, hbase, hfr, -, hdisj⟩ :=
     hA c.clobber i hopc c (whole_tgt env.prog L) haddr s.pc n a b retAddr ais σ env { s with pc := s.pc + 1 } s' rfl hext
       harm hchk (by omega) hrip (rel0_pc retAddr σ s _ hrel0) hlog halign rfl hstep
   refine ⟨k, σ', hk, hmis, fun hsome => ?_⟩
   have htop'' : topBytes σ' s' = some top := htop'.trans htop
+  have hd0' : s'.frames = [] := hfr.trans hd0
   have halign' : s'.mem.stack.base % 16 = 0 := by rw [hbase]; exact halign
   rcases hdisj with ⟨hpc, hrip'⟩ | ⟨l, htgt, hrip'⟩
   · obtain ⟨j, hj⟩ := Option.isSome_iff_exists.mp hsome
@@ -144,12 +145,12 @@ theorem wholec_step_sim (env : Env) (haddr : Nat → Option Nat) (um ud : Bool) 
     have hnext := whole_starts_next env.prog s.pc i j hstart hj'
     rw [← hn, ← hpc] at hnext
     have hlt := (whole_starts_mem _ _ _ hnext).2
-    refine ⟨⟨hrel0', htop'', ⟨j, hnext⟩, b, ?_, hrip'⟩, hlog', halign'⟩
+    refine ⟨⟨hrel0', htop'', ⟨j, hnext⟩, ⟨b, ?_, hrip'⟩, hd0'⟩, hlog', halign'⟩
     unfold whole_locOf at hlocb
     rw [← hpc, if_pos hlt] at hlocb
     exact hlocb
   · obtain ⟨hst, hl⟩ := whole_tgt_pc env.prog L s'.pc l htgt
-    exact ⟨⟨hrel0', htop'', hst, l, hl, hrip'⟩, hlog', halign'⟩
+    exact ⟨⟨hrel0', htop'', hst, ⟨l, hl, hrip'⟩, hd0'⟩, hlog', halign'⟩
 
 /-- runs -/
 theorem wholec_run_sim (env : Env) (haddr : Nat → Option Nat) (um ud : Bool) (c : Cfg) (L : JitAst.Layout) (retAddr : Nat)
